@@ -140,6 +140,10 @@ Shapes(k, st) ==
       [shape |-> "childdeep_whole", site |-> s.site,   \* the same with a whole-file child reference
        u |-> U(<<Slot(B1, k, "X", Conc("X", <<Ch(s.site, s.kind, RW(B1, <<"r", "sub", "deep", "wy.json">>, st))>>)),
                  Slot(<<"r", "sub", "deep", "wy.json">>, s.kind, "", Conc("WY", <<>>))>>, R(Root, B1, k, "X", st), k)],
+      [shape |-> "childdangling_whole", site |-> s.site,   \* a whole-file child reference whose target does not exist beside the referring
+                                                            \* file -- while a file of that name exists beside the ROOT document
+       u |-> U(<<Slot(B1, k, "X", Conc("X", <<Ch(s.site, s.kind, RW(B1, <<"r", "sub", "gone.json">>, st))>>)),
+                 Slot(<<"r", "gone.json">>, s.kind, "", Conc("Decoy", <<>>))>>, R(Root, B1, k, "X", st), k)],
       [shape |-> "rootchild", site |-> s.site,      \* a root component with a child site pointing out
        u |-> U(<<Slot(Root, k, "X", Conc("X", <<Ch(s.site, s.kind, R(Root, B1, s.kind, "Y", st))>>)),
                  Slot(B1, s.kind, "Y", Conc("Y", <<>>))>>, R(Root, Root, k, "X", st), k)]}
@@ -212,19 +216,23 @@ PathItemShapes(st) ==
 (* the external files exist, then loads the real one: a used Loader must behave like a fresh one    *)
 (* data / reader: LoadFromData / LoadFromIoReader -- the document has no location of its own and     *)
 (* relative references resolve against the working directory (the harness stands in the root's dir) *)
-Entries == {"file_abs", "file_rel", "datapath", "file_rel_default", "uri_remote", "file_abs_reuse", "data", "reader"}
+(* file_abs_prior: the Loader has first loaded, as a root document of its own, every external file of the    *)
+(* universe (successfully or not); what a Loader has seen before gives the next load no licence to read it *)
+Entries == {"file_abs", "file_rel", "datapath", "file_rel_default", "uri_remote", "file_abs_reuse", "file_abs_prior", "data", "reader"}
 
 QuickSlice(sh, st, e, pos) ==
    \/ (st \in {"plain", "abspath", "http"} /\ e = "file_abs")
    \/ (st \in AbsStyles /\ sh.shape \in {"direct", "child", "wholefile"} /\ e = "datapath" /\ pos = "op")
    \/ sh.shape = "otherhost_samepath"
    \/ (sh.shape \in {"collection", "collection_local"} /\ st = "plain" /\ e \in {"file_abs", "data"})
+   \/ (sh.shape = "childdangling_whole" /\ st = "plain" /\ e \in {"file_abs", "file_rel"} /\ pos = "op")
    \/ (sh.shape = "samepath_twohosts" /\ st = "plain" /\ e \in {"file_abs", "uri_remote", "datapath"})
    \/ (sh.shape = "deepfragment" /\ e \in {"file_abs", "file_rel"})
    \/ (sh.shape \in {"child", "chain3", "diamond"} /\ e = "file_abs" /\ pos = "op")
    \/ (sh.shape \in {"direct", "child", "pi_direct", "pi_wholefile", "pi_child"} /\ st = "plain" /\ pos = "op")
    \/ (sh.shape \in {"direct", "chain3", "wholefile"} /\ e = "file_rel_default" /\ pos = "op")
    \/ (sh.shape \in {"direct", "chain3", "wholefile", "child", "diamond", "selfcycle", "crossdoc_local"} /\ e = "file_abs_reuse" /\ st = "plain")
+   \/ (sh.shape \in {"direct", "chain2", "chain3", "child", "diamond", "backref"} /\ e = "file_abs_prior" /\ st \in {"plain", "abspath"})
    \/ (sh.shape \in {"direct", "chain3", "wholefile", "child", "childdeep", "selfcycle", "sameroot", "dangling"} /\ e \in {"data", "reader"} /\ st \in {"plain", "abspath"})
    \/ (sh.shape \in {"direct", "chain3", "wholefile", "child", "backref"} /\ e = "uri_remote" /\ st \in {"plain", "updown"} /\ pos = "op")
 
